@@ -36,6 +36,7 @@ type C13Case struct {
 	Legacy     bool        `json:"legacy_name,omitempty"`
 	Mode       string      `json:"mode"` // "writer-stepped" | "reader-parked" | "writer-overtaken"
 	WriterPark *Inject     `json:"writer_park,omitempty"` // mode C: where the first writer is stopped before its lock
+	Symlink    bool        `json:"log_is_a_symlink,omitempty"`
 	ReaderPark *Inject     `json:"reader_park,omitempty"`
 	Violations []Violation `json:"violations,omitempty"`
 	Observed   []readObs   `json:"observed,omitempty"`
@@ -369,6 +370,9 @@ func TestC13(t *testing.T) {
 				w.Close()
 				t.Fatalf("setup failed")
 			}
+			if cc.Symlink {
+				schedPre{SymlinkLog: true}.apply(w.Root)
+			}
 			var viol []Violation
 			if cc.Mode == "writer-overtaken" {
 				_, viol, _ = writerOvertaken(w, pre, cc.Writer, *cc.Writer2, *cc.WriterPark)
@@ -431,7 +435,15 @@ func TestC13(t *testing.T) {
 				return
 			}
 		}
+		symlink := pct(rt, 8, "symlink")
+		if symlink {
+			schedPre{SymlinkLog: true}.apply(w.Root)
+			stats.Label("pre.log_is_a_symlink")
+		}
 		writer := genWriterOp(rt, w, pre)
+		if symlink && pct(rt, 60, "symlink.rewrite") {
+			writer = oneOf(rt, []Op{{Kind: "compact"}, {Kind: "plan", Plan: genRichPlan(rt, w)}}, "symlink.writer")
+		}
 		writer.N = 500
 		w.writeFiles(writer.Files) // the model looks at the files a result names
 		if w.Predict(pre, writer).Decision == MustReject {
@@ -464,7 +476,7 @@ func TestC13(t *testing.T) {
 				return
 			}
 			park := pts[uni(rt, lastAcq, "overtaken.at")]
-			cc := C13Case{Property: "C13", Engine: "SCHED", Test: "TestC13", Setup: setup, TornTail: torn, BigBody: big, Writer: a, Writer2: &b, Mode: mode, Legacy: legacy, WriterPark: &park}
+			cc := C13Case{Property: "C13", Engine: "SCHED", Test: "TestC13", Setup: setup, TornTail: torn, BigBody: big, Writer: a, Writer2: &b, Mode: mode, Legacy: legacy, WriterPark: &park, Symlink: symlink}
 			obs, viol, skipped := writerOvertaken(w, pre, a, b, park)
 			if skipped != "" {
 				stats.Label("skipped.overtaken: " + skipped)
@@ -485,7 +497,7 @@ func TestC13(t *testing.T) {
 		if torn > 0 && pct(rt, 50, "torn.readerparked") {
 			mode = "reader-parked" // a reader that has consumed the fragment while a writer repairs it
 		}
-		cc := C13Case{Property: "C13", Engine: "SCHED", Test: "TestC13", Setup: setup, TornTail: torn, BigBody: big, Writer: writer, Mode: mode, Legacy: legacy}
+		cc := C13Case{Property: "C13", Engine: "SCHED", Test: "TestC13", Setup: setup, TornTail: torn, BigBody: big, Writer: writer, Mode: mode, Legacy: legacy, Symlink: symlink}
 		if legacy {
 			stats.Label("pre.legacy_file_name")
 			if pct(rt, 50, "legacy.compact") {
